@@ -816,6 +816,23 @@ impl WorldA {
                     self.check_send_side(i, if d == 0 { CL } else { SV }, obs);
                 }
             }
+            K_SUBMITBURST => {
+                // an application that submits a volley of messages of one size at once (a level download, a replay of buffered
+                // state): 40..100 messages, so that per-channel counters move far within one run
+                let i = op.a as usize % ncl;
+                let d = (op.b % 2) as usize;
+                let n = self.nchan(i, d);
+                if n > 0 {
+                    let ch = op.c as usize % n;
+                    let count = 40 + (op.d % 61) as usize;
+                    let len = [1usize, 300, 1200, 1201, 1500, 2400, 2401][((op.d / 61) % 7) as usize];
+                    obs.count("op.submit_burst");
+                    for _ in 0..count {
+                        self.submit(i, d, ch, len, None, obs);
+                    }
+                    self.check_send_side(i, if d == 0 { CL } else { SV }, obs);
+                }
+            }
             K_RECV => {
                 let i = op.a as usize % ncl;
                 let d = (op.b % 2) as usize;
